@@ -66,6 +66,11 @@ var combos = []combo{
 	{"TCP over IPv4", false, "tcp"}, {"TCP with options over IPv4", false, "tcp-options"}, {"UDP over IPv4", false, "udp"}, {"ICMPv4", false, "icmp4"}, {"GRE with checksum over IPv4", false, "gre"},
 	{"TCP over IPv4, 16-byte-form addresses assigned after linking", false, "tcp+addr16"}, {"UDP over IPv4, 16-byte-form addresses assigned after linking", false, "udp+addr16"},
 	{"TCP over IPv6", true, "tcp"}, {"UDP over IPv6", true, "udp"}, {"ICMPv6", true, "icmp6"},
+	// GRE with a source route entry of k bytes: for odd k the header has an odd length and the
+	// payload starts at an odd offset of the checksummed region
+	{"GRE with checksum and a 1-byte source route entry", false, "gre-sre1"}, {"GRE with checksum and a 2-byte source route entry", false, "gre-sre2"},
+	{"GRE with checksum and a 3-byte source route entry", false, "gre-sre3"}, {"GRE with checksum and a 4-byte source route entry", false, "gre-sre4"},
+	{"GRE with checksum and a 7-byte source route entry", false, "gre-sre7"},
 }
 
 var payloadLens = []int{0, 1, 2, 3, 4, 5, 8, 9}
@@ -123,6 +128,7 @@ func build(c combo, n int, w uint16) (*built, error) {
 	b := &built{skip: map[int]bool{}}
 	small := n < 2
 	hdr := 0
+	sreLen := 0
 	switch c.proto {
 	case "ipv4hdr", "ipv4hdr-options":
 		ip4.Protocol = layers.IPProtocol(253)
@@ -173,6 +179,20 @@ func build(c combo, n int, w uint16) (*built, error) {
 		g := &layers.GRE{ChecksumPresent: true, KeyPresent: true, Key: 0x01020304, Protocol: layers.EthernetType(0x88b5)}
 		if small {
 			g.Key = uint32(w)
+		}
+		ls = append(ls, g)
+		hdr = 4
+	case "gre-sre1", "gre-sre2", "gre-sre3", "gre-sre4", "gre-sre7":
+		ip4.Protocol = layers.IPProtocolGRE
+		sreLen = int(c.proto[len(c.proto)-1] - '0')
+		ri := make([]byte, sreLen)
+		for i := range ri {
+			ri[i] = byte(0x61 + i)
+		}
+		g := &layers.GRE{ChecksumPresent: true, RoutingPresent: true, Protocol: layers.EthernetType(0x88b5),
+			GRERouting: &layers.GRERouting{AddressFamily: 0x0800, SREOffset: 0, SRELength: uint8(sreLen), RoutingInformation: ri}}
+		if small {
+			g.GRERouting.AddressFamily = w | 1 // never the NULL entry
 		}
 		ls = append(ls, g)
 		hdr = 4
@@ -230,6 +250,15 @@ func build(c combo, n int, w uint16) (*built, error) {
 			b.skip[iphl+4], b.skip[iphl+5] = true, true // length
 		case "gre":
 			b.skip[iphl], b.skip[iphl+1] = true, true // flags
+		case "gre-sre1", "gre-sre2", "gre-sre3", "gre-sre4", "gre-sre7":
+			b.skip[iphl], b.skip[iphl+1] = true, true // flags
+			// framing: the entry's address family / offset / length and the terminating NULL entry
+			for i := iphl + 8; i < iphl+12; i++ {
+				b.skip[i] = true
+			}
+			for i := iphl + 12 + sreLen; i < iphl+16+sreLen; i++ {
+				b.skip[i] = true
+			}
 		}
 	}
 	return b, nil
@@ -250,7 +279,7 @@ func reference(c combo, pkt []byte, b *built) uint16 {
 	region[b.csumOff-b.l4off], region[b.csumOff-b.l4off+1] = 0, 0
 	var r uint16
 	switch c.proto {
-	case "ipv4hdr", "ipv4hdr-options", "icmp4", "gre":
+	case "ipv4hdr", "ipv4hdr-options", "icmp4", "gre", "gre-sre1", "gre-sre2", "gre-sre3", "gre-sre4", "gre-sre7":
 		r = refChecksum(region)
 	default:
 		var ph []byte
@@ -346,6 +375,180 @@ func verify(c combo, pkt []byte) (v verdict) {
 		}
 	}
 	return
+}
+
+// ---- the same layer objects used again after an address was changed ---------------------
+
+// reuse covers the multi-step use of one set of layer objects: (1) a packet is written, then an
+// address of the SAME IP layer object is changed (a byte of the slice in place, or the field
+// assigned a new slice) and the packet is written again without calling
+// SetNetworkLayerForChecksum again: the second checksum must be the reference for the new
+// addresses; (2) a decoded transport layer is verified, then a bit of the linked IP layer's
+// address is flipped in place and it is verified again: mismatch, Correct = reference.
+func reuse(fail func(string, string, int64, any), c combo, n int, st *stats, smu *sync.Mutex) {
+	if !(c.proto == "tcp" || c.proto == "udp" || c.proto == "icmp6") {
+		return
+	}
+	defer func() {
+		if x := recover(); x != nil {
+			k, site := report.PanicKey(x, debug.Stack())
+			fail(k, fmt.Sprintf("panic %v at %s in %s payload %d (layer objects used again)", x, site, c.name, n), 0, map[string]any{"combo": c.name, "payload_len": n})
+		}
+	}()
+	var em, ve int64
+	for wi := 0; wi < 65536; wi += 257 {
+		w := uint16(wi)
+		for mode := 0; mode < 4; mode++ { // which address, how it is changed
+			pl := payloadFor(n, w)
+			var ip4 *layers.IPv4
+			var ip6 *layers.IPv6
+			var ipl gopacket.NetworkLayer
+			var ls []gopacket.SerializableLayer
+			if c.ipv6 {
+				ip6 = &layers.IPv6{Version: 6, HopLimit: 64, SrcIP: append(net.IP(nil), src6...), DstIP: append(net.IP(nil), dst6...)}
+				ipl = ip6
+				ls = append(ls, ip6)
+			} else {
+				ip4 = &layers.IPv4{Version: 4, IHL: 5, TTL: 64, SrcIP: append(net.IP(nil), src4...), DstIP: append(net.IP(nil), dst4...), Id: 0x1234}
+				ipl = ip4
+				ls = append(ls, ip4)
+			}
+			switch c.proto {
+			case "tcp":
+				ip4p(ip4, ip6, layers.IPProtocolTCP)
+				t := &layers.TCP{SrcPort: 50001, DstPort: 50002, Seq: 7, Ack: 9, ACK: true, Window: 1000}
+				t.SetNetworkLayerForChecksum(ipl)
+				ls = append(ls, t)
+			case "udp":
+				ip4p(ip4, ip6, layers.IPProtocolUDP)
+				u := &layers.UDP{SrcPort: 50001, DstPort: 50002}
+				u.SetNetworkLayerForChecksum(ipl)
+				ls = append(ls, u)
+			case "icmp6":
+				ip6.NextHeader = layers.IPProtocolICMPv6
+				i := &layers.ICMPv6{TypeCode: layers.CreateICMPv6TypeCode(1, 0)}
+				i.SetNetworkLayerForChecksum(ipl)
+				ls = append(ls, i)
+			}
+			ls = append(ls, gopacket.Payload(pl))
+			buf := gopacket.NewSerializeBuffer()
+			hdr := map[string]int{"tcp": 16, "udp": 6, "icmp6": 2}[c.proto]
+			check := func(step string) bool {
+				if err := gopacket.SerializeLayers(buf, sopts, ls...); err != nil {
+					fail("reuse|serialization failed|"+c.name, err.Error(), int64(wi), nil)
+					return false
+				}
+				em++
+				pkt := append([]byte(nil), buf.Bytes()...)
+				iphl := 40
+				if !c.ipv6 {
+					iphl = 20
+				}
+				b := &built{bytes: pkt, l4off: iphl, l4len: len(pkt) - iphl, csumOff: iphl + hdr}
+				want := reference(c, pkt, b)
+				got := uint16(pkt[b.csumOff])<<8 | uint16(pkt[b.csumOff+1])
+				if got != want {
+					fail("reuse|written checksum differs from the reference after an address of the same IP layer object was changed|"+c.name,
+						fmt.Sprintf("%s payload %d word %#04x, %s: wrote %#04x, reference %#04x", c.name, n, w, step, got, want), int64(wi),
+						map[string]any{"combo": c.name, "payload_len": n, "word": w, "step": step, "packet": hex.EncodeToString(pkt)})
+					return false
+				}
+				return true
+			}
+			if !check("first write") {
+				continue
+			}
+			addr := func() *net.IP {
+				if c.ipv6 {
+					if mode&1 == 0 {
+						return &ip6.SrcIP
+					}
+					return &ip6.DstIP
+				}
+				if mode&1 == 0 {
+					return &ip4.SrcIP
+				}
+				return &ip4.DstIP
+			}()
+			step := ""
+			if mode&2 == 0 {
+				(*addr)[len(*addr)-1] ^= 0x40 // in place
+				step = "a byte of the address slice changed in place"
+			} else {
+				na := append(net.IP(nil), *addr...)
+				na[1] ^= 0x01
+				*addr = na // the field assigned a new slice
+				step = "the address field assigned a new slice"
+			}
+			if mode&1 == 0 {
+				step = "source: " + step
+			} else {
+				step = "destination: " + step
+			}
+			check("second write, " + step)
+		}
+		// verification with the same linked objects
+		b, err := build(c, n, w)
+		if err != nil {
+			continue
+		}
+		first := layers.LayerTypeIPv4
+		if c.ipv6 {
+			first = layers.LayerTypeIPv6
+		}
+		for which := 0; which < 2; which++ {
+			pkt := append([]byte(nil), b.bytes...)
+			p := gopacket.NewPacket(pkt, first, gopacket.DecodeOptions{NoCopy: true})
+			nl, l := p.NetworkLayer(), p.Layer(checkedType(c))
+			if nl == nil || l == nil {
+				continue
+			}
+			type setter interface {
+				SetNetworkLayerForChecksum(gopacket.NetworkLayer) error
+			}
+			l.(setter).SetNetworkLayerForChecksum(nl)
+			lw := l.(gopacket.LayerWithChecksum)
+			if err, res := lw.VerifyChecksum(); err != nil || !res.Valid {
+				continue // reported by the sweep
+			}
+			var a net.IP
+			switch v := nl.(type) {
+			case *layers.IPv4:
+				a = v.SrcIP
+				if which == 1 {
+					a = v.DstIP
+				}
+			case *layers.IPv6:
+				a = v.SrcIP
+				if which == 1 {
+					a = v.DstIP
+				}
+			}
+			a[len(a)-1] ^= 0x04 // with NoCopy the address aliases pkt: the packet bytes change with it
+			ve++
+			want := reference(c, pkt, b)
+			stored := uint16(pkt[b.csumOff])<<8 | uint16(pkt[b.csumOff+1])
+			err, res := lw.VerifyChecksum()
+			if err != nil {
+				fail("reuse|error while verifying after an address bit of the linked IP layer was flipped|"+c.name, err.Error(), int64(wi), nil)
+				continue
+			}
+			if c.proto == "udp" && stored == 0 {
+				continue
+			}
+			if res.Valid {
+				fail("reuse|corrupted packet accepted: verification ignores a change of the linked IP layer's address|"+c.name,
+					fmt.Sprintf("%s payload %d word %#04x: address bit flipped in place after the first verification, VerifyChecksum still reports Valid (Correct=%#x Actual=%#x, reference %#x)", c.name, n, w, res.Correct, res.Actual, want), int64(wi),
+					map[string]any{"combo": c.name, "payload_len": n, "word": w, "packet": hex.EncodeToString(pkt)})
+			} else if uint16(res.Correct) != want && !(c.proto == "udp" && want == 0xffff && res.Correct == 0) {
+				fail("reuse|expected checksum after an address change is not the reference|"+c.name, fmt.Sprintf("Correct=%#x reference %#x", res.Correct, want), int64(wi), nil)
+			}
+		}
+	}
+	smu.Lock()
+	st.emissions += em
+	st.flips += ve
+	smu.Unlock()
 }
 
 // ---- driver -----------------------------------------------------------------------
@@ -450,6 +653,7 @@ func main() {
 			for j := range jobs {
 				c, n := combos[j.ci], payloadLens[j.li]
 				sweep(r, fail, c, n, &st, &smu, &samples)
+				reuse(fail, c, n, &st, &smu)
 			}
 		}()
 	}
@@ -471,7 +675,7 @@ func main() {
 	r.Coverage["combos"] = fmt.Sprint(combos)
 	r.Coverage["payload_lengths"] = fmt.Sprint(payloadLens)
 	r.Coverage["samples"] = samples
-	r.Coverage["rule"] = "FoldChecksum for all 2^32 values; ComputeChecksum for all byte strings of length <=2 [thorough 3] x 5 initial values and constant fills up to 70000 bytes, against an exact 64-bit sum; for each protocol/pseudo-header combination x payload length in {0,1,2,3,4,5,8,9} x all 65536 values of one 16-bit word (first payload word, or a header field for payloads shorter than 2): the checksum bytes written by SerializeLayers(ComputeChecksums) must equal the reference, the decoded packet must verify as valid with Correct == reference (layer VerifyChecksum after attaching the network layer, and Packet.VerifyChecksums); for word values = 0 mod 257 [thorough: all] and the values producing checksum 0x0000/0xffff, every single bit of every covered byte (header, payload, pseudo-header addresses, checksum field; framing fields excluded) is flipped and verification must report invalid with Correct == reference of the corrupted data (UDP: stored 0 means no checksum). distinct_nontrivial = distinct checksum values emitted (out of 65536)."
+	r.Coverage["rule"] = "FoldChecksum for all 2^32 values; ComputeChecksum for all byte strings of length <=2 [thorough 3] x 5 initial values and constant fills up to 70000 bytes, against an exact 64-bit sum; for each protocol/pseudo-header combination x payload length in {0,1,2,3,4,5,8,9} x all 65536 values of one 16-bit word (first payload word, or a header field for payloads shorter than 2): the checksum bytes written by SerializeLayers(ComputeChecksums) must equal the reference, the decoded packet must verify as valid with Correct == reference (layer VerifyChecksum after attaching the network layer, and Packet.VerifyChecksums); for word values = 0 mod 257 [thorough: all] and the values producing checksum 0x0000/0xffff, every single bit of every covered byte (header, payload, pseudo-header addresses, checksum field; framing fields excluded) is flipped and verification must report invalid with Correct == reference of the corrupted data (UDP: stored 0 means no checksum). GRE also with one source route entry of 1,2,3,4,7 bytes (odd header lengths). Same objects used again: for TCP/UDP/ICMPv6 x 256 word values, a packet is written, an address of the same IP layer object is changed (in place / new slice, source / destination) and the packet written again without re-linking: reference checksum for the new addresses; a verified decoded layer is verified again after an address bit of the linked IP layer was flipped in place: mismatch with Correct == reference. distinct_nontrivial = distinct checksum values emitted (out of 65536)."
 	r.Assumptions = []string{"the reference (refSum/refFold, 25 lines, exact 64-bit integer arithmetic, RFC 768 zero rule for UDP) is correct", "bit flips in framing fields (header lengths, protocol numbers, flag words that change the layout) are not applied"}
 	r.Finish()
 }
@@ -563,7 +767,7 @@ func sweep(r *report.Run, fail func(string, string, int64, any), c0 combo, n int
 				for i := 8; i < 40; i++ {
 					offs = append(offs, i)
 				}
-			} else if c.proto != "icmp4" && c.proto != "gre" {
+			} else if c.proto != "icmp4" && !strings.HasPrefix(c.proto, "gre") {
 				for i := 12; i < 20; i++ {
 					offs = append(offs, i)
 				}
